@@ -786,6 +786,33 @@ def _it_takewhile(interp, args, kwargs, state, node):
                                             origin=interp.site(node)))
 
 
+def _copy_copy(interp, args, kwargs, state, node):
+    """copy.copy: a new object of the same kind whose attributes /
+    elements are the same objects (shallow)."""
+    x = args[0]
+    if isinstance(x, Ref):
+        o = interp.obj(state, x)
+        if o.kind == 'inst':
+            if any(interp.prog.find_method(o.cls, m_) is not None
+                   for m_ in ('__copy__', '__reduce__', '__reduce_ex__',
+                              '__getstate__', '__setstate__')):
+                raise _i().Unsupported('copy.copy of an object with its own '
+                                       'copy protocol at ' +
+                                       interp.site(node))
+            return interp.alloc(state, _i().InstObj(
+                o.cls, dict(o.attrs), origin=interp.site(node)))
+        if o.kind == 'list':
+            return interp.alloc(state, _i().ListObj(
+                o.items, o.more if not isinstance(o.more, bool) else
+                (x if o.more else False), origin=interp.site(node)))
+        if o.kind == 'dict':
+            return interp.alloc(state, _i().DictObj(
+                o.items, o.more, origin=interp.site(node)))
+    if T.is_const(x):
+        return x
+    return Sym('extcall', 'copy.copy', (_t(x),), ())
+
+
 def _b_hasattr(interp, args, kwargs, state, node):
     base, name = args
     if isinstance(name, str) and isinstance(base, (Ref, ClassInfo,
@@ -1787,7 +1814,7 @@ _EXT_CALLS = {
     'builtins.getattr': _b_getattr, 'builtins.setattr': _b_setattr,
     'builtins.hasattr': _b_hasattr, 'builtins.int': _b_int,
     'builtins.vars': _b_vars, 'dataclasses.replace': _dc_replace,
-    'itertools.takewhile': _it_takewhile,
+    'itertools.takewhile': _it_takewhile, 'copy.copy': _copy_copy,
     'builtins.bool': _b_bool, 'builtins.str': _b_str,
     'builtins.float': _b_float, 'builtins.bytes': _b_bytes,
     'builtins.bytearray': _b_bytearray, 'builtins.sorted': _b_sorted,
@@ -2332,6 +2359,29 @@ def get_item(interp, base, k, state, node):
             interp.raise_pending(state, E('builtins.TypeError'), node,
                                  'object is not subscriptable', cond=True)
             raise _i()._NoReturn()
+    if isinstance(base, tuple) and isinstance(k, Sym) and \
+            0 < len(base) <= 8:
+        tk = state.kn.type_of(k) or T.typeof(k)
+        if tk is not None and tk <= {'int', 'bool'}:
+            # a small compile-time tuple indexed by a run-time integer: one
+            # case per position, negative positions included
+            n_ = len(base)
+            inside = T.and_(T.compare('ge', k, -n_), T.compare('lt', k, n_))
+            d_ = interp.decide(inside, state)
+            if d_ is not True:
+                interp.raise_pending(state, E('builtins.IndexError'), node,
+                                     'tuple index out of range',
+                                     cond=T.not_(inside) if d_ is None
+                                     else True)
+                if d_ is False:
+                    raise _i()._NoReturn()
+                state.kn.assume(inside)
+            res = base[n_ - 1]
+            for i_ in list(range(n_ - 2, -1, -1)):
+                res = interp.join_value(
+                    T.or_(T.compare('eq', k, i_),
+                          T.compare('eq', k, i_ - n_)), base[i_], res)
+            return res
     if isinstance(base, (tuple, str, bytes)) and isinstance(k, int):
         try:
             return base[k]
